@@ -14,7 +14,7 @@ func coreC01(tier string) []RunSpec {
 		n = 60
 	}
 	// race-heavy scenarios with fixed shape: k-th variation of the tape under forced step kind
-	for _, kind := range []string{"race", "replay", "dup"} {
+	for _, kind := range []string{"race", "replay", "dup", "stalerelease"} {
 		for k := 0; k < n; k++ {
 			out = append(out, RunSpec{Profile: "core:" + kind, Params: map[string]int{"force": mwKind(kind), "k": k}})
 		}
@@ -22,7 +22,7 @@ func coreC01(tier string) []RunSpec {
 	return out
 }
 
-var mwKinds = []string{"fund", "swap", "melt", "resolve", "replay", "dup", "race", "checkstate", "restore", "restart", "clock", "adversarial", "internal", "rotate", "mintrace"}
+var mwKinds = []string{"fund", "swap", "melt", "resolve", "replay", "dup", "race", "checkstate", "restore", "restart", "clock", "adversarial", "internal", "rotate", "mintrace", "stalerelease"}
 
 func mwKind(k string) int {
 	for i, x := range mwKinds {
@@ -65,6 +65,8 @@ func (m *MW) Step(kind int, allowRotate bool) {
 		m.StepRotateRuntime()
 	case "mintrace":
 		m.StepMintRace()
+	case "stalerelease":
+		m.StepStaleRelease()
 	}
 }
 
@@ -86,7 +88,7 @@ func runC01(rc *RunCtx) {
 	})
 	forced, isForced := rc.Spec.Params["force"]
 	// weights:       fund swap melt resolve replay dup race checkstate restore restart clock adv internal rotate
-	weights := []int{2, 3, 3, 2, 4, 2, 6, 2, 1, 1, 1, 0, 1, 0}
+	weights := []int{2, 3, 3, 2, 4, 2, 6, 2, 1, 1, 1, 0, 1, 0, 0, 3}
 	// a quarter of the random runs additionally inject storage errors into ordinary operations
 	faults := !isForced && T.Chance("cfg.faults", 1, 4)
 	rc.StepLoop(3, 14, func(i int) {
